@@ -34,8 +34,9 @@ var benignIn = map[string]string{
 
 // errFallbacks: "<function>|<callee>" whose failure selects another strategy instead of failing the function
 var errFallbacks = map[string]string{
-	"findDependencyVersionToInstall|v1.NewHash": "a constraint that does not parse as a digest is a version range: the failed parse selects the tag search",
-	"findDependencyVersionToUpdate|v1.NewHash":  "a constraint that does not parse as a digest is a version range: the failed parse selects the tag search",
+	"findDependencyVersionToInstall|v1.NewHash":                "a constraint that does not parse as a digest is a version range: the failed parse selects the tag search",
+	"findDependencyVersionToUpdate|v1.NewHash":                 "a constraint that does not parse as a digest is a version range: the failed parse selects the tag search",
+	"RunFunction|(v1.FunctionRunnerServiceClient).RunFunction": "BetaFallBackFunctionRunnerServiceClient: a v1 call that fails with Unimplemented (any other failure returns at once) selects the v1beta1 service",
 }
 
 // errFloors: half of the tested errors counted on the reference tree per property
@@ -182,6 +183,25 @@ func returnedWithErr(u ssa.Instruction, errV ssa.Value) bool {
 		if r, ok := in.(*ssa.Return); ok {
 			return len(r.Results) > 0 && errRelated(r.Results[len(r.Results)-1])
 		}
+		if ci, ok := in.(ssa.CallInstruction); ok {
+			if n := cfgx.CalleeName(ci); strings.Contains(n, "logging.Logger).") || strings.Contains(n, "event.Recorder).") {
+				return true // reported, not acted upon
+			}
+		}
+		if st, ok := in.(*ssa.Store); ok {
+			// an element of a variadic argument list: follow the list to the call it is passed to
+			if ia, ok := st.Addr.(*ssa.IndexAddr); ok {
+				if a, ok := ia.X.(*ssa.Alloc); ok && a.Referrers() != nil {
+					for _, r := range *a.Referrers() {
+						if sl, ok := r.(*ssa.Slice); ok && !rec(sl, d+1) {
+							return false
+						}
+					}
+					return true
+				}
+			}
+			return false
+		}
 		if _, ok := in.(*ssa.DebugRef); ok {
 			return true
 		}
@@ -190,7 +210,7 @@ func returnedWithErr(u ssa.Instruction, errV ssa.Value) bool {
 			return false
 		}
 		switch in.(type) {
-		case *ssa.Phi, *ssa.Convert, *ssa.ChangeType, *ssa.MakeInterface, *ssa.ChangeInterface, *ssa.Slice, *ssa.Call, *ssa.Extract, *ssa.UnOp, *ssa.IndexAddr, *ssa.FieldAddr, *ssa.Field, *ssa.SliceToArrayPointer:
+		case *ssa.Phi, *ssa.Convert, *ssa.ChangeType, *ssa.MakeInterface, *ssa.ChangeInterface, *ssa.Slice, *ssa.Call, *ssa.Extract, *ssa.UnOp, *ssa.BinOp, *ssa.IndexAddr, *ssa.FieldAddr, *ssa.Field, *ssa.SliceToArrayPointer:
 		default:
 			return false
 		}
@@ -460,6 +480,13 @@ func statelessness(c *Ctx, fns []*ssa.Function) {
 			found[key] = c.pos(at.Pos())
 		}
 	}
+	// the long-lived objects: receivers of the functions the property's rules anchor on
+	longLived := map[string]bool{}
+	for _, f := range c.Mech {
+		if f.Signature.Recv() != nil {
+			longLived[strings.TrimPrefix(f.Signature.Recv().Type().String(), "*")] = true
+		}
+	}
 	for _, fn := range fns {
 		root := fn
 		for root.Parent() != nil {
@@ -467,6 +494,23 @@ func statelessness(c *Ctx, fns []*ssa.Function) {
 		}
 		if root.Signature.Recv() == nil && len(root.Params) == 0 {
 			continue
+		}
+		if root.Signature.Recv() != nil && !longLived[strings.TrimPrefix(root.Signature.Recv().Type().String(), "*")] {
+			// a helper object made for one invocation (a counting reader, a builder) is not state of the mechanism;
+			// package-level variables are still looked at below
+			hasGlobal := false
+			for _, b := range fn.Blocks {
+				for _, in := range b.Instrs {
+					if st, ok := in.(*ssa.Store); ok {
+						if _, g := st.Addr.(*ssa.Global); g {
+							hasGlobal = true
+						}
+					}
+				}
+			}
+			if !hasGlobal {
+				continue
+			}
 		}
 		var recv ssa.Value
 		if root.Signature.Recv() != nil && len(root.Params) > 0 {
@@ -505,6 +549,9 @@ func statelessness(c *Ctx, fns []*ssa.Function) {
 				switch in := in.(type) {
 				case *ssa.Store:
 					if k := fieldOf(in.Addr); k != "" {
+						if p, isParam := flow.Root(in.Val).(*ssa.Parameter); isParam && p != recv && p.Parent() == fn {
+							continue // a setter / functional option: the value is handed in, not remembered from a computation
+						}
 						note(k, in)
 					}
 				case *ssa.MapUpdate:
